@@ -9,6 +9,7 @@ CONSTANTS
   KeyMode = "full"
   MaxLen = 5
   PPBs <- PPBSmall
-  Picks <- NoPicks
+  NPicks = 0
+  PickAt <- NoPick
 INVARIANTS ArraysImplIsContract ArrayLemmas
 CHECK_DEADLOCK FALSE
